@@ -177,4 +177,21 @@ def resolved_conds(f, rd, bid):
                 rhs = rd.rhs_of(defs[0])
                 if rhs is not None:
                     out.append((expr_str(f, rhs), (not pol) if neg else pol))
+        # a pointer local with a single definition that only names another expression (`const Chunk *behind = pc->GetNext();`):
+        # the fact is also given in terms of that expression
+        import re
+        from .facts import walk
+        txt = expr_str(f, cn)
+        new = txt
+        for x in walk(f, cn):
+            if x["k"] == "ref" and x.get("d") == "lv" and (x.get("t") or "").endswith("*"):
+                ds = rd.at(cn, var_id(x))
+                if len(ds) == 1 and ds[0][0] == "decl" and rd.rhs_of(ds[0]) is not None:
+                    rn = f.nodes.get(rd.rhs_of(ds[0]))
+                    while rn is not None and rn["k"] == "cast":
+                        rn = f.nodes.get(rn["a"][0])
+                    if rn is not None and rn["k"] == "call" and "o" in rn:
+                        new = re.sub(r"\b%s\b" % re.escape(x["n"]), expr_str(f, rn["i"]), new)
+        if new != txt:
+            out.append((new, pol))
     return out
